@@ -1,8 +1,13 @@
 ------------------------------ MODULE LiftWaiter ------------------------------
 (* Property C19, schedule part: `await waiter(structure)` as a state machine.                  *)
 (*                                                                                             *)
-(* The structure holds awaitables: futures and running tasks, which make progress on their own, *)
-(* and un-started coroutines, which only run once somebody awaits them.  The caller does not   *)
+(* The structure holds awaitables of every kind the language knows (Lift.tla, AllAwKinds):      *)
+(* futures, running tasks, gather / shield futures, which make progress on their own           *)
+(* (EagerKinds), and un-started coroutines and plain objects implementing __await__, which     *)
+(* only run once somebody awaits them (LazyKinds); some need nobody's release and deliver the  *)
+(* moment they are awaited (NowKinds: a finished future, an __await__ that returns a finished  *)
+(* iterator, a coroutine that never suspends).  Next to them sit look-alikes that are not      *)
+(* awaitable and are ordinary leaves.  The caller does not                                     *)
 (* control the order in which they complete - and a coroutine may be unable to finish before   *)
 (* another one has started.  The law: waiter STARTS every awaitable before it waits for any    *)
 (* (action Start: all of them are concurrently pending), then one action Complete(i) per       *)
@@ -26,7 +31,7 @@ vars == <<tree, started, pending, cur, out, hist>>
 NotYet == <<"pending", 0>>
 
 Init == /\ tree \in Trees
-        /\ started = AwIds(tree) \ CoroIds(tree)        \* futures and tasks do not wait for waiter
+        /\ started = AwIds(tree) \ LazyIds(tree)        \* futures, tasks, gather / shield futures do not wait for waiter
         /\ pending = AwIds(tree)
         /\ cur = tree
         /\ out = NotYet
@@ -51,11 +56,12 @@ Complete(i) == /\ CanComplete(i)
                /\ pending' = pending \ {i}
                /\ cur' = Fill(cur, i, V[i])
                /\ UNCHANGED <<tree, started, out, hist>>
-\* the same, remembering the order (generator configurations only)
+\* the same, remembering the order in which the outside world released the awaitables that need a
+\* release (generator configurations only; the NowKinds deliver unprompted, whenever)
 CompleteH(i) == /\ CanComplete(i)
                 /\ pending' = pending \ {i}
                 /\ cur' = Fill(cur, i, V[i])
-                /\ hist' = Append(hist, i)
+                /\ hist' = IF i \in NowIds(tree) THEN hist ELSE Append(hist, i)
                 /\ UNCHANGED <<tree, started, out>>
 \* waiter returns
 Return == /\ pending = {} /\ out = NotYet
@@ -71,6 +77,7 @@ SpecSeq == Init /\ [][NextSeq]_vars /\ WF_vars(NextSeq)
 Done == out # NotYet
 
 \* --- clauses ---------------------------------------------------------------------------------
+WellFormed       == AwWellFormed(tree)                   \* of the menus, not of waiter
 PendingIsSubset  == pending \subseteq AwIds(tree) /\ (AwIds(tree) \ pending) \subseteq started
 \* what has been delivered so far depends on *which* awaitables completed, not on their order
 ProgressIsSet    == cur = Subst(tree, AwIds(tree) \ pending, V)
@@ -78,6 +85,17 @@ ProgressIsSet    == cur = Subst(tree, AwIds(tree) \ pending, V)
 OrderIndependent == Done => out = Subst(tree, AwIds(tree), V)
 NothingLeft      == Done => AwIds(out) = {} /\ pending = {}
 ShapeKept        == SameShape(tree, cur)
+\* what is not awaitable - the look-alikes included - is where it was; a result is what the kind delivers
+LooksUntouched   == LookLeaves(cur) = LookLeaves(tree) /\ (Done => LookLeaves(out) = LookLeaves(tree))
+\* position by position: where the structure holds an awaitable - of whatever kind - the result holds
+\* what awaiting it gives; where it holds a container, the same container; otherwise the same leaf
+RECURSIVE Resolved(_, _)
+Resolved(x, r) == IF IsAw(x) THEN r = Deliver(AwKind(x), V[AwId(x)])
+                  ELSE IF IsCont(x) THEN /\ Tag(r) = Tag(x) /\ Width(r) = Width(x)
+                                         /\ (IsMap(x) => \A k \in 1..Width(x) : Pay(r)[k][1] = Pay(x)[k][1])
+                                         /\ \A k \in 1..Width(x) : Resolved(Child(x, k), Child(r, k))
+                  ELSE r = x
+EveryKindAwaited == Done => Resolved(tree, out)
 \* once everything has started, every pending awaitable may be the next to complete
 AnyOrder         == (started = AwIds(tree) /\ out = NotYet) => \A i \in pending : ENABLED Complete(i)
 NoEarlyReturn    == [][out' # out => pending = {}]_vars
